@@ -7,7 +7,10 @@ Tie (trace validation): the primitive file-system traces of REAL jug.backends.fi
 (dump of pickled values 0 B - MBs, raw .npy and compress_numpy arrays - numeric, string, datetime dtypes
 written with tofile(), and object / structured-with-object dtypes whose .npy body is a pickle written through
 Python's buffered writer -, re-dump, dump of a packed key,
-remove, remove_many, update_pack, resave_pack, cleanup, re-opened stores) are recorded by the os-level
+remove, remove_many, update_pack, resave_pack, cleanup, re-opened stores; dumps that let an EXCEPTION through in
+the middle of the write - values whose pickling raises after part of the output was produced, a KeyboardInterrupt
+injected at a primitive boundary - on new keys and on keys that hold a result: dump() must raise, no final name
+may change, the trace must still be accepted) are recorded by the os-level
 interposer (harness/c05_fsx.py), rendered as `list fsop` and coqc evaluates
   * `write_protocol fin complete trace = true`  (fin = every name outside tempfiles/ and locks/;
     complete = byte strings that decode STRICTLY - whole zlib stream, whole pickle / npy - to a value
@@ -27,6 +30,7 @@ after the write finished, via hard links).  Redis: command trace of redis_store.
 command-atomic fake server."""
 import base64
 import contextlib
+import gc
 import hashlib
 import io
 import os
@@ -62,9 +66,60 @@ REDIS_URL = 'redis://localhost/'
 
 
 # ============================================================================ values
-def mkvalue(spec):
+class InjectedInterrupt(KeyboardInterrupt):
+    """a signal delivered to the writer at a primitive boundary (raised by the interposer hook)"""
+
+
+EXC = {'ValueError': ValueError, 'TypeError': TypeError, 'KeyboardInterrupt': KeyboardInterrupt, 'SystemExit': SystemExit,
+       'MemoryError': MemoryError, 'RecursionError': RecursionError, 'PicklingError': pickle.PicklingError}
+
+
+class Bomb:
+    """an object whose pickling raises: always (times=None) or only the first `times` times (a transient failure);
+    when it does not raise it pickles as the integer 7"""
+
+    def __init__(self, exc, times=None):
+        self.exc = exc
+        self.times = times
+        self.calls = 0
+
+    def __reduce__(self):
+        self.calls += 1
+        if self.times is None or self.calls <= self.times:
+            raise EXC[self.exc]('injected while pickling')
+        return (int, (7,))
+
+
+def expected_failure(valspec):
+    """the exception classes dump() must let through for this value, or None when it can be stored"""
+    if valspec[0] != 'failing':
+        return None
+    if valspec[4] == 'unpicklable':
+        return (pickle.PicklingError, AttributeError, TypeError)
+    return (EXC[valspec[4]],)
+
+
+def mkvalue(spec, resolved=False):
+    """resolved: the value as it reads back when a transiently failing element finally pickled (as 7)"""
     spec = list(spec)
     t = spec[0]
+    if t == 'failing':
+        # ['failing', seed, nchunks, chunk, exc, where, times]: `nchunks` incompressible byte strings of `chunk` bytes
+        # (output that reaches the stream / the file BEFORE the failure) followed by an element whose pickling raises
+        seed, nchunks, chunk, exc, where = spec[1:6]
+        times = spec[6] if len(spec) > 6 else None
+        r = random.Random(seed)
+        head = [r.randbytes(chunk) for _ in range(nchunks)]
+        last = 7 if resolved else ((lambda: 0) if exc == 'unpicklable' else Bomb(exc, times))
+        if where == 'list':
+            return head + ['tail', last]
+        if where == 'dict':
+            return {'head': head, 'z': last}
+        a = np.empty(len(head) + 1, dtype=object)        # 'oarr': the raw .npy branch (its body is a pickle)
+        for i, x in enumerate(head):
+            a[i] = x
+        a[len(head)] = last
+        return a
     if t == 'none':
         return None
     if t == 'int':
@@ -245,7 +300,18 @@ def gen_scenario(rng, nops, big=False):
     compress = rng.random() < 0.4
     for _ in range(nops):
         r = rng.random()
-        if r < 0.45 or not have:
+        if r < 0.07 and ops:
+            # an exception passes through dump(): the value cannot be pickled (after part of it was written), or a
+            # signal (KeyboardInterrupt) reaches the writer at a primitive boundary; on new keys and on keys with a result
+            k = rng.choice(keys)
+            if rng.random() < 0.5:
+                val = ['failing', rng.randrange(10 ** 6), rng.choice([0, 1, 3, 8]), rng.choice([10, 3000, 40000]),
+                       rng.choice(['ValueError', 'TypeError', 'KeyboardInterrupt', 'SystemExit', 'MemoryError', 'unpicklable']),
+                       rng.choice(['list', 'list', 'dict', 'oarr'])]
+                ops.append({'op': 'dump', 'key': k, 'val': val})
+            else:
+                ops.append({'op': 'dump', 'key': k, 'val': gen_valspec(rng, False), 'raise_at': rng.randrange(0, 14)})
+        elif r < 0.45 or not have:
             k = rng.choice(keys)
             ops.append({'op': 'dump', 'key': k, 'val': gen_valspec(rng, big)})
             have.add(k)
@@ -336,7 +402,28 @@ def fixed_scenarios(thorough):
                     {'op': 'remove_many', 'keys': [K(70, 'ef'), K(75)]},
                     {'op': 'reopen', 'compress': False},
                     {'op': 'dump', 'key': K(80), 'val': ['oarr', 15, [4], 5, 'C']}]}
-    return [s1, s2, s3, s4, s5]
+    # an exception passes through dump() in the middle of the write: new keys and keys that hold a result, the pickle
+    # branch, the raw .npy branch (object array) and the compressed branch, a key inside the pack; then signals at
+    # every primitive boundary of a re-dump
+    fails = [['failing', 1, 0, 10, 'ValueError', 'list'], ['failing', 2, 4, 40000, 'KeyboardInterrupt', 'list'],
+             ['failing', 3, 2, 3000, 'MemoryError', 'dict'], ['failing', 4, 6, 40000, 'unpicklable', 'list'],
+             ['failing', 5, 3, 40000, 'SystemExit', 'oarr'], ['failing', 6, 1, 10, 'TypeError', 'oarr'],
+             ['failing', 7, 5, 40000, 'ValueError', 'oarr']]
+    s6 = {'name': 'exception passes through dump', 'compress': False,
+          'ops': [{'op': 'dump', 'key': K(90), 'val': ['bytes', 1, 300]}, {'op': 'dump', 'key': K(91, 'ab'), 'val': ['int', 91]},
+                  {'op': 'dump', 'key': K(92), 'val': ['arr', 'float64', [20], 1, 'C']}, {'op': 'dump', 'key': K(93), 'val': ['bytes', 2, 20000]}]
+                 + [{'op': 'dump', 'key': K(90 + (i % 4), 'ab' if i % 4 == 1 else None), 'val': v} for i, v in enumerate(fails)]
+                 + [{'op': 'dump', 'key': K(95 + i), 'val': v} for i, v in enumerate(fails[1:5])]
+                 + [{'op': 'update_pack'},
+                    {'op': 'dump', 'key': K(91, 'ab'), 'val': fails[1]},
+                    {'op': 'dump', 'key': K(90), 'val': ['int', 5], 'raise_at': 3},
+                    {'op': 'reopen', 'compress': True},
+                    {'op': 'dump', 'key': K(92), 'val': fails[4]},
+                    {'op': 'dump', 'key': K(93), 'val': fails[3]}]
+                 + [{'op': 'dump', 'key': K(93), 'val': ['bytes', 3, 9000], 'raise_at': j} for j in (0, 2, 3, 5, 6, 8, 10)]
+                 + [{'op': 'reopen', 'compress': False}]
+                 + [{'op': 'dump', 'key': K(92), 'val': ['arr', 'int32', [50], 2, 'C'], 'raise_at': j} for j in (1, 4, 7, 9)]}
+    return [s1, s2, s3, s4, s5, s6]
 
 
 def scenario_keys(scn):
@@ -353,6 +440,10 @@ def apply_expected(pre, op):
     post = dict(pre)
     t = op['op']
     if t == 'dump':
+        if expected_failure(op['val']) is not None:
+            if len(op['val']) > 6:                      # transient: it is stored if the store retries, else nothing changes
+                post[op['key']] = mkvalue(op['val'], resolved=True)
+            return post, {op['key']}                    # always failing: dump() raises and nothing changes
         post[op['key']] = mkvalue(op['val'])
         return post, {op['key']}
     if t == 'remove':
@@ -470,9 +561,11 @@ def check_writable(d, keys):
                 for k in keys:
                     if not R.can_load(bx(k)) or not same(R.load(bx(k)), vals[k]):
                         probs.append(('after a crash: a later write of the key is not read back', '%s %s' % (k, phase)))
+            step = 'remove_many of %s' % keys
+            gone = set(hx(k) for k in file_store(d).remove_many([bx(k) for k in keys]))
+            R = file_store(d)
             for k in keys:
-                step = 'remove of %s' % k
-                if not file_store(d).remove(bx(k)) or file_store(d).can_load(bx(k)):
+                if k not in gone or R.can_load(bx(k)):
                     probs.append(('after a crash: a later remove of the key does not remove it', k))
         except WouldBlock:
             probs.append(('after a crash and lock cleanup: a later store operation waits for a lock', step))
@@ -513,10 +606,27 @@ class Recorded:
 
 
 def do_op(box, op, jd):
+    """-> 'raised' when a dump let an EXPECTED exception through (the value cannot be pickled / a signal was injected
+    at a primitive boundary); the writer process ends with it: locks are cleaned up and a new store object is used"""
     s = box[0]
     t = op['op']
     if t == 'dump':
-        s.dump(mkvalue(op['val']), bx(op['key']))
+        expect = (expected_failure(op['val']) or ()) + ((InjectedInterrupt,) if 'raise_at' in op else ())
+        if not expect:
+            s.dump(mkvalue(op['val']), bx(op['key']))
+            return None
+        raised = False
+        try:
+            s.dump(mkvalue(op['val']), bx(op['key']))
+        except BaseException as e:
+            if not isinstance(e, expect) or (type(e) is KeyboardInterrupt and KeyboardInterrupt not in expect):
+                raise
+            raised = True
+        gc.collect()                         # the abandoned file object goes away now (its buffer reaches the temp file)
+        if raised:
+            file_store(jd).remove_locks()
+            box[0] = file_store(jd, compress_numpy=s.compress_numpy)
+            return 'raised'
     elif t == 'remove':
         s.remove(bx(op['key']))
     elif t == 'remove_many':
@@ -560,29 +670,35 @@ def record(scn, root, reader_stride=1, upto=None, only_reader_op=None):
             o.ctx = Ctx(rec.universe, o.pre, o.post, o.targets)
             o.reader_problems = []
             o.before_listing = None
-            if op['op'] == 'dump':
+            if op['op'] == 'dump' and op['key'] in o.post and o.post[op['key']] is not o.pre.get(op['key'], o):
                 rec.dumped.setdefault(op['key'], []).append(o.post[op['key']])
+            packed_before = set()
+            if op['op'] == 'dump' and rec.ops and 'packs/jugpack' in rec.ops[-1].listing:
+                okp, pack = decode_strict(ip.blobs.data[rec.ops[-1].listing['packs/jugpack']])
+                packed_before = set(pack) if okp and isinstance(pack, dict) else set()
             snaps = []
-            state = {'n': 0}
+            state = {'n': 0, 'fired': False}
+            raise_at = op.get('raise_at')
 
-            def hook(point, o=o, snaps=snaps, state=state):
+            def hook(point, o=o, snaps=snaps, state=state, raise_at=raise_at):
                 n = state['n']
                 state['n'] += 1
-                if not reader_stride or n % reader_stride:
-                    return
-                if only_reader_op is not None and only_reader_op != o.index:
-                    return
-                rec.reader_points += 1
-                if os.path.isdir(jd):
-                    for cls, det in check_store(jd, o.ctx):
-                        o.reader_problems.append({'reader': 'fresh reader at this instant', 'point': n, 'at': point, 'class': cls, 'detail': det})
-                    sd = os.path.join(snaproot, str(n))
-                    snapshot(jd, sd)
-                    if os.path.isdir(sd):
-                        snaps.append((n, point, sd))
-            ip.hook = hook if (reader_stride and op['op'] != 'reopen') else None
+                if reader_stride and n % reader_stride == 0 and (only_reader_op is None or only_reader_op == o.index):
+                    rec.reader_points += 1
+                    if os.path.isdir(jd):
+                        for cls, det in check_store(jd, o.ctx):
+                            o.reader_problems.append({'reader': 'fresh reader at this instant', 'point': n, 'at': point, 'class': cls, 'detail': det})
+                        sd = os.path.join(snaproot, str(n))
+                        snapshot(jd, sd)
+                        if os.path.isdir(sd):
+                            snaps.append((n, point, sd))
+                if raise_at is not None and n == raise_at and not state['fired']:
+                    state['fired'] = True            # a signal reaches the writer at this primitive boundary
+                    raise InjectedInterrupt(point)
+            ip.hook = hook if ((reader_stride or raise_at is not None) and op['op'] != 'reopen') else None
+            o.raised = False
             try:
-                do_op(box, op, jd)
+                o.raised = do_op(box, op, jd) == 'raised'
             except Exception as e:
                 rec.failed = (i, '%s: %s' % (type(e).__name__, str(e)[:200]))
             finally:
@@ -600,11 +716,34 @@ def record(scn, root, reader_stride=1, upto=None, only_reader_op=None):
             # the finished operation: the plain key-value oracle (a fresh process sees exactly the expected map)
             o.final_problems = []
             if rec.failed is None:
-                done = Ctx(rec.universe, o.post, o.post, set())
-                o.final_problems = check_store(jd, done) if os.path.isdir(jd) else []
-                for k in rec.universe:
-                    if k not in o.post and os.path.isdir(jd) and file_store(jd).can_load(bx(k)):
-                        o.final_problems.append(('key loadable although never dumped / removed', k))
+                # an operation that let an exception through either changed nothing or (the signal came after the
+                # rename / a transient failure was retried) did all of its work: both are all-or-nothing
+                cands = [o.post]
+                if o.raised:
+                    cands = [o.pre] + ([o.post] if o.post is not o.pre and ('raise_at' in op or len(op.get('val', [])) > 6) else [])
+                    # recorded observation (DESIGN.md, C05): dump() of a key that is inside the pack drops the packed value
+                    # first (resave_pack) and only then writes the file, so an interrupted re-dump of a PACKED key may
+                    # leave the key without a value; accepted only for a key that was in the pack when the dump began
+                    if op['key'] in o.pre and bx(op['key']) in packed_before:
+                        cands.append(dict((k, v) for k, v in o.pre.items() if k != op['key']))
+                elif op['op'] == 'dump' and expected_failure(op['val']) is not None and len(op['val']) <= 6:
+                    cands = [o.pre]               # an unpicklable value: nothing may change, raised or not
+                results = []
+                for cand in cands:
+                    done = Ctx(rec.universe, cand, cand, set())
+                    probs = check_store(jd, done) if os.path.isdir(jd) else []
+                    for k in rec.universe:
+                        if k not in cand and os.path.isdir(jd) and file_store(jd).can_load(bx(k)):
+                            probs.append(('key loadable although never dumped / removed', k))
+                    results.append((cand, probs))
+                    if not probs:
+                        break
+                good = [c for c, pr in results if not pr]
+                o.post = good[0] if good else cands[0]
+                o.old_value_dropped = bool(good) and o.raised and op['key'] in o.pre and op['key'] not in o.post
+                o.final_problems = [] if good else results[0][1]
+                if op['op'] == 'dump' and expected_failure(op['val']) is not None and len(op['val']) <= 6 and not o.raised:
+                    o.final_problems.append(('dump of a value that cannot be pickled returned normally', op['key']))
             rec.ops.append(o)
             expected = o.post
             if rec.failed is not None:
@@ -1030,7 +1169,7 @@ def search_scenario(ck, rec, root, cap, max_points, report):
         seen = {}
         seen_w = set()
         # the keys stored again on every crash image: the key(s) whose operation was interrupted, and another one
-        wkeys = sorted(o.targets)[:2] + [k for k in rec.universe if k not in o.targets][:1]
+        wkeys = sorted(o.targets)[:1] + [k for k in rec.universe if k not in o.targets][:1]
 
         def check(img, crash):
             sg = sig_of(img)
@@ -1042,8 +1181,9 @@ def search_scenario(ck, rec, root, cap, max_points, report):
             probs = check_store(imgdir, o.ctx)
             # whether later writes work depends on WHICH temp / lock files the crash left, on whether the keys written
             # again have a file, and on the pack - not on the other contents
+            ptag = img.get('packs/jugpack')
             wsig = (tuple(sorted(n for n in img if n.split('/')[0] in NONFINAL_DIRS)),
-                    tuple(fname_of(k) in img for k in wkeys), img.get('packs/jugpack'))
+                    tuple(fname_of(k) in img for k in wkeys), 'garbage' if ptag and ptag[0] == 'g' else ptag)
             if wsig not in seen_w:
                 seen_w.add(wsig)
                 stats['writable'] += 1
@@ -1386,7 +1526,14 @@ def run(ck):
             for o in rec.ops:
                 shape = op_shape(rec, rd, o)
                 ck.distinct(shape, len(shape[1]) > 0)
-                if o.op['op'] == 'dump':
+                if o.op['op'] == 'dump' and (o.raised or expected_failure(o.op['val']) is not None):
+                    how = ('value whose pickling raises %s' % o.op['val'][4]) if expected_failure(o.op['val']) is not None else 'signal at a primitive boundary'
+                    ck.count('dump that lets an exception through (%s): %s' % (
+                        how, 'raised' if o.raised else 'completed'))
+                    ck.count('dump that lets an exception through: key %s' % ('held a result' if o.op['key'] in o.pre else 'was new'))
+                    if getattr(o, 'old_value_dropped', False):
+                        ck.count('dump that lets an exception through: key was in the pack and is left without a value (recorded observation)')
+                elif o.op['op'] == 'dump':
                     v = o.post[o.op['key']]
                     kind = ('raw npy' if isinstance(v, np.ndarray) and not scn_compress_at(scn, o.index) else
                             'compressed npy' if isinstance(v, np.ndarray) else 'pickle')
@@ -1529,7 +1676,7 @@ def replay(obj):
             for n, t in sorted(img.items()):
                 print('   image: %-60s %s' % (n, t))
             probs = check_store(imgdir, o.ctx)
-            wkeys = sorted(o.targets)[:2] + [k for k in rec.universe if k not in o.targets][:1]
+            wkeys = sorted(o.targets)[:1] + [k for k in rec.universe if k not in o.targets][:1]
             probs = probs + check_writable(imgdir, wkeys)
             print('then: lock cleanup, dump of %s, read back, update_pack, read back, remove' % [k[:8] for k in wkeys])
             print('expected: every loadable key loads one of', {k: [describe(x) for x in ([o.pre[k]] if k in o.pre else []) + ([o.post[k]] if k in o.targets and k in o.post else [])]
@@ -1539,6 +1686,15 @@ def replay(obj):
                 rc = 1
             if not rc:
                 print('fresh file_store on the crash image: all-or-nothing holds')
+            return rc
+        # the finished operations: a fresh process must see exactly the expected key-value map
+        for o in rec.ops:
+            for cls, det in o.final_problems:
+                print('VIOLATION after operation %d %s (no crash): %s: %s' % (o.index, o.op, cls, det))
+                rc = 1
+        if 'kind' in obj and obj['kind'] == 'impl-violation' and obj.get('what', '').startswith('no crash'):
+            if not rc:
+                print('after every operation a fresh file_store sees exactly the expected results')
             return rc
         # correspondence replay: re-render and ask Coq again
         rd = render(rec)
